@@ -91,6 +91,12 @@ func c05Scenarios(tier string) []*Scenario {
 				add(tr, "", true, RPC{Kind: "cs", Client: []string{"S0", "S1", "C", "R*"}, Handler: h}, "")
 			}
 		}
+		// a single-response method whose handler sends too many responses (ignoring what the sends say): an
+		// error for the caller, and nobody is left waiting
+		for _, h := range [][]string{{"r*", "s0", "s1", "ret:ok"}, {"r*", "s0", "s1", "s2", "ret:ok"}, {"r*", "s0", "s1", "ret:st:5"}} {
+			add(tr, "", false, RPC{Kind: "cs", Client: []string{"S0", "C", "R*", "R", "T"}, Handler: h}, "")
+			add(tr, "", false, RPC{Kind: "cs", Client: []string{"S0", "C", "R*"}, Client2: []string{"T", "H"}, Handler: h}, "")
+		}
 		for _, h := range [][]string{{"r", "s0", "s1", "ret:ok"}, {"ret:st:5"}, {"r", "s0", "ret:st:5"}, {"s0", "r", "ret:ok"}} {
 			add(tr, "", false, RPC{Kind: "ss", Client: []string{"S0", "C", "R*"}, Handler: h}, "")
 			add(tr, "", false, RPC{Kind: "ss", Client: []string{"S0", "C", "H", "R", "R", "R", "T"}, Handler: h}, "")
